@@ -97,3 +97,12 @@ Proof. intros Hs Hne. unfold camel_b, tauri_camel, words.
     + rewrite <- H1. reflexivity.
     + rewrite H2. rewrite <- H1. reflexivity.
 Qed.
+
+(* the call-site guard of apply_naming_convention returns what the crate's arm returns whenever that does not panic *)
+Lemma camel_b_guard s x : camel_b s = Ok x -> camel_guard s = x.
+Proof. unfold camel_b, camel_guard. destruct (pascal true s) as [|c rest]; [discriminate|].
+  destruct rest as [|r rest]; [intros H; inversion H; reflexivity|].
+  destruct (is_cont r); [discriminate|]. intros H; inversion H; reflexivity. Qed.
+Theorem camel_guard_agrees s : forallb snake_char s = true -> existsb (fun c => negb (is_us c)) s = true ->
+  camel_guard s = tauri_camel s.
+Proof. intros Hs Hn. apply camel_b_guard. apply camel_agrees; assumption. Qed.
